@@ -87,6 +87,144 @@ theorem reads_quant (scope : List Sym) (hsc : ScopeOK scope) (op : Op) (hop : op
     simp only [show ("exists" == "let") = false by decide, show ("exists" == "forall") = false by decide,
       Bool.false_eq_true, if_false, beq_self_eq_true, if_true, rdQuant, hvars, hne, hnd, hbody]
 
+/-- every node that `Printable` admits is read back, given that its arguments are -/
+theorem reads_node (scope : List Sym) (hsc : ScopeOK scope) (op : Op) (args : List Term) (p : Payload) (τ : Ty)
+    (h1 : op ≠ .forall_) (h2 : op ≠ .exists_)
+    (hargs : ∀ a ∈ args, Reads sp env scope a) (hty : (Term.node op args p).typeOf = some τ)
+    (hS : stdTy op p (args.map tyD) = some τ) (hok : nodeOK env scope op p args = true) :
+    Reads sp env scope (.node op args p) := by
+  cases op with
+  | forall_ => exact absurd rfl h1
+  | exists_ => exact absurd rfl h2
+  | and => exact reads_andor sp hsp env scope hsc _ (Or.inl rfl) p args τ hargs hty hS hok
+  | or => exact reads_andor sp hsp env scope hsc _ (Or.inr rfl) p args τ hargs hty hS hok
+  | not => exact reads_boolfix sp hsp env scope hsc _ (Or.inl rfl) p args τ hargs hty hS
+  | implies => exact reads_boolfix sp hsp env scope hsc _ (Or.inr (Or.inl rfl)) p args τ hargs hty hS
+  | iff => exact reads_boolfix sp hsp env scope hsc _ (Or.inr (Or.inr rfl)) p args τ hargs hty hS
+  | symbol =>
+    simp only [stdTy] at hS
+    split at hS
+    · next ts s hts =>
+      split at hS <;> simp at hS
+      subst hS
+      have : args = [] := by simpa using hts
+      subst this
+      apply reads_of sp env scope _ _ _ hty (unfoldAV_plain _ _ _ (by decide))
+      rw [toSexpWith_node]
+      simp only [nodeSexp]
+      exact atomTerm_sym env scope s hok
+    · simp at hS
+  | function =>
+    cases p with
+    | sym f => exact reads_function sp env scope f args τ hargs hty hS hok
+    | _ => simp [stdTy] at hS
+  | realConst =>
+    have : ∃ r, p = .q r ∧ args = [] := by
+      simp only [stdTy] at hS
+      split at hS
+      · next ts r hts => exact ⟨r, rfl, by simpa using hts⟩
+      · simp at hS
+    obtain ⟨r, rfl, rfl⟩ := this
+    exact reads_realConst sp env scope hsp hsc r τ hty hS
+  | boolConst =>
+    have : ∃ r, p = .b r ∧ args = [] := by
+      simp only [stdTy] at hS
+      split at hS
+      · next ts r hts => exact ⟨r, rfl, by simpa using hts⟩
+      · simp at hS
+    obtain ⟨r, rfl, rfl⟩ := this
+    exact reads_boolConst sp env scope hsc r τ hty hS
+  | intConst =>
+    have : ∃ r, p = .i r ∧ args = [] := by
+      simp only [stdTy] at hS
+      split at hS
+      · next ts r hts => exact ⟨r, rfl, by simpa using hts⟩
+      · simp at hS
+    obtain ⟨r, rfl, rfl⟩ := this
+    exact reads_intConst sp env scope hsp hsc r τ hty hS hok
+  | strConst =>
+    have : ∃ r, p = .s r ∧ args = [] := by
+      simp only [stdTy] at hS
+      split at hS
+      · next ts r hts => exact ⟨r, rfl, by simpa using hts⟩
+      · simp at hS
+    obtain ⟨r, rfl, rfl⟩ := this
+    exact reads_strConst sp env scope r τ hty hS hok
+  | plus => exact reads_plustimes sp hsp env scope hsc _ (Or.inl rfl) p args τ hargs hty hS hok
+  | times => exact reads_plustimes sp hsp env scope hsc _ (Or.inr rfl) p args τ hargs hty hS hok
+  | minus => exact reads_minus sp hsp env scope hsc p args τ hargs hty hS
+  | le => exact reads_rel sp hsp env scope hsc _ (Or.inl rfl) p args τ hargs hty hS
+  | lt => exact reads_rel sp hsp env scope hsc _ (Or.inr rfl) p args τ hargs hty hS
+  | equals => exact reads_equals sp hsp env scope hsc p args τ hargs hty hS
+  | ite => exact reads_ite sp hsp env scope hsc p args τ hargs hty hS
+  | toReal => exact reads_toReal sp hsp env scope hsc p args τ hargs hty hS
+  | bvConst =>
+    have : ∃ v w, p = .bv v w ∧ args = [] := by
+      simp only [stdTy] at hS
+      split at hS
+      · next ts v w hts => exact ⟨v, w, rfl, by simpa using hts⟩
+      · simp at hS
+    obtain ⟨v, w, rfl, rfl⟩ := this
+    exact reads_bvConst sp env scope v w τ hty hS
+  | bvNot => exact reads_bvun sp hsp env scope hsc _ (Or.inl rfl) p args τ hargs hty hS
+  | bvNeg => exact reads_bvun sp hsp env scope hsc _ (Or.inr rfl) p args τ hargs hty hS
+  | bvAnd => exact reads_bvbin sp hsp env scope hsc _ ⟨"walk_bv_and", "bvand", by decide⟩ p args τ hargs hty hS
+  | bvOr => exact reads_bvbin sp hsp env scope hsc _ ⟨"walk_bv_or", "bvor", by decide⟩ p args τ hargs hty hS
+  | bvXor => exact reads_bvbin sp hsp env scope hsc _ ⟨"walk_bv_xor", "bvxor", by decide⟩ p args τ hargs hty hS
+  | bvAdd => exact reads_bvbin sp hsp env scope hsc _ ⟨"walk_bv_add", "bvadd", by decide⟩ p args τ hargs hty hS
+  | bvSub => exact reads_bvbin sp hsp env scope hsc _ ⟨"walk_bv_sub", "bvsub", by decide⟩ p args τ hargs hty hS
+  | bvMul => exact reads_bvbin sp hsp env scope hsc _ ⟨"walk_bv_mul", "bvmul", by decide⟩ p args τ hargs hty hS
+  | bvUdiv => exact reads_bvbin sp hsp env scope hsc _ ⟨"walk_bv_udiv", "bvudiv", by decide⟩ p args τ hargs hty hS
+  | bvUrem => exact reads_bvbin sp hsp env scope hsc _ ⟨"walk_bv_urem", "bvurem", by decide⟩ p args τ hargs hty hS
+  | bvLshl => exact reads_bvbin sp hsp env scope hsc _ ⟨"walk_bv_lshl", "bvshl", by decide⟩ p args τ hargs hty hS
+  | bvLshr => exact reads_bvbin sp hsp env scope hsc _ ⟨"walk_bv_lshr", "bvlshr", by decide⟩ p args τ hargs hty hS
+  | bvAshr => exact reads_bvbin sp hsp env scope hsc _ ⟨"walk_bv_ashr", "bvashr", by decide⟩ p args τ hargs hty hS
+  | bvSdiv => exact reads_bvbin sp hsp env scope hsc _ ⟨"walk_bv_sdiv", "bvsdiv", by decide⟩ p args τ hargs hty hS
+  | bvSrem => exact reads_bvbin sp hsp env scope hsc _ ⟨"walk_bv_srem", "bvsrem", by decide⟩ p args τ hargs hty hS
+  | bvConcat => exact reads_concat sp hsp env scope hsc p args τ hargs hty hS
+  | bvComp => exact reads_comp sp hsp env scope hsc p args τ hargs hty hS
+  | bvExtract => exact reads_extract sp hsp env scope p args τ hargs hty hS
+  | bvUlt => exact reads_bvrel sp hsp env scope hsc _ ⟨"walk_bv_ult", "bvult", by decide⟩ p args τ hargs hty hS
+  | bvUle => exact reads_bvrel sp hsp env scope hsc _ ⟨"walk_bv_ule", "bvule", by decide⟩ p args τ hargs hty hS
+  | bvSlt => exact reads_bvrel sp hsp env scope hsc _ ⟨"walk_bv_slt", "bvslt", by decide⟩ p args τ hargs hty hS
+  | bvSle => exact reads_bvrel sp hsp env scope hsc _ ⟨"walk_bv_sle", "bvsle", by decide⟩ p args τ hargs hty hS
+  | bvRol => exact reads_rot sp hsp env scope _ (Or.inl rfl) p args τ hargs hty hS
+  | bvRor => exact reads_rot sp hsp env scope _ (Or.inr rfl) p args τ hargs hty hS
+  | bvZext => exact reads_ext sp hsp env scope _ (Or.inl rfl) p args τ hargs hty hS
+  | bvSext => exact reads_ext sp hsp env scope _ (Or.inr rfl) p args τ hargs hty hS
+  | bvToNatural => exact reads_bv2nat sp hsp env scope hsc p args τ hargs hty hS
+  | strLength => exact reads_str sp hsp env scope hsc _ ⟨"walk_str_length", "str.len", by decide⟩ p args τ hargs hty hS
+  | strCharAt => exact reads_str sp hsp env scope hsc _ ⟨"walk_str_charat", "str.at", by decide⟩ p args τ hargs hty hS
+  | strContains => exact reads_str sp hsp env scope hsc _ ⟨"walk_str_contains", "str.contains", by decide⟩ p args τ hargs hty hS
+  | strIndexOf => exact reads_str sp hsp env scope hsc _ ⟨"walk_str_indexof", "str.indexof", by decide⟩ p args τ hargs hty hS
+  | strReplace => exact reads_str sp hsp env scope hsc _ ⟨"walk_str_replace", "str.replace", by decide⟩ p args τ hargs hty hS
+  | strSubstr => exact reads_str sp hsp env scope hsc _ ⟨"walk_str_substr", "str.substr", by decide⟩ p args τ hargs hty hS
+  | strPrefixOf => exact reads_str sp hsp env scope hsc _ ⟨"walk_str_prefixof", "str.prefixof", by decide⟩ p args τ hargs hty hS
+  | strSuffixOf => exact reads_str sp hsp env scope hsc _ ⟨"walk_str_suffixof", "str.suffixof", by decide⟩ p args τ hargs hty hS
+  | strConcat => exact reads_strConcat sp hsp env scope hsc p args τ hargs hty hS hok
+  | arraySelect => exact reads_select sp hsp env scope hsc p args τ hargs hty hS
+  | arrayStore => exact reads_store sp hsp env scope hsc p args τ hargs hty hS
+  | arrayValue => exact reads_arrayValue sp hsp env scope hsc p args τ hargs hty hS hok
+  | div => exact reads_div sp hsp env scope hsc p args τ hargs hty hS hok
+  | strToInt | intToStr | pow | algebraicConst => simp [stdTy] at hS
+
+/-- the printed form of every `Printable` term is read back as the term (array values unfolded), with its sort -/
+theorem reads_all : ∀ (t : Term) (scope : List Sym), ScopeOK scope → Printable env scope t = true → Reads sp env scope t
+  | .node op args p, scope, hsc, hP => by
+    obtain ⟨τ, hS, hty, hcase⟩ := printable_node env scope op args p hP
+    rcases hcase with ⟨vs, hq, rfl, hb, hargsP⟩ | ⟨h1, h2, hok, hargsP⟩
+    · have hsc' := scopeOK_binder hb hsc
+      exact reads_quant sp hsp env scope hsc op hq vs args τ hb
+        (fun a ha => reads_all a (vs.reverse ++ scope) hsc' (hargsP a ha)) hty hS
+    · exact reads_node sp hsp env scope hsc op args p τ h1 h2
+        (fun a ha => reads_all a scope hsc (hargsP a ha)) hty hS hok
+termination_by t => sizeOf t
+decreasing_by
+  all_goals
+    simp_wf
+    have := List.sizeOf_lt_of_mem ha
+    omega
+
 end
 
 end PySMT.Printer
